@@ -385,10 +385,10 @@ pub fn make_gz_header(f: &GzFields) -> GzHold {
         v
     });
     let mut h = Box::new(gz_header::default());
-    h.text = f.text as i32;
+    h.text = if f.text_val != 0 || !f.text { f.text_val } else { 1 };
     h.time = f.mtime as _;
     h.os = f.os as i32;
-    h.hcrc = f.hcrc as i32;
+    h.hcrc = if f.hcrc_val != 0 || !f.hcrc { f.hcrc_val } else { 1 };
     if let Some(e) = extra.as_mut() {
         h.extra = e.as_mut_ptr();
         h.extra_len = e.len() as u32;
@@ -510,7 +510,7 @@ pub fn run_deflate_with<B: DefBack>(plan: &DefPlan, ar: &Arenas) -> DefRun {
                 match prev_ti {
                     None => {
                         // first call: total_in may include the dictionary length on the C API
-                        let dl = plan.dict.as_ref().map_or(0, |d| d.len() as u64);
+                        let dl = plan.dict.as_ref().map_or(0, |d| d.len().min(1usize << plan.cfg.eff_wbits()) as u64);
                         let base = co.total_in.wrapping_sub(din as u64);
                         let ok = base == 0 || (!B::IS_WRAPPER && run.dict_rc == Some(Z_OK) && base == dl);
                         if !ok {
